@@ -37,7 +37,7 @@ C2 = None
 _embedded = {}
 
 
-METHOD_KERNELS = {'Add': ['Add'], 'Subtract': ['Sub'], 'Multiply': ['Mul'], 'Negate': ['Opp'], 'Square': ['Square'], 'Set': [], 'Sgn0': ['FromMontgomery'],
+METHOD_KERNELS = {'Add': ['Add'], 'Subtract': ['Sub'], 'Multiply': ['Mul'], 'Negate': ['Opp', 'Sub'], 'Square': ['Square', 'Mul'], 'Set': [], 'Sgn0': ['FromMontgomery'],
                   'IsZero': ['Nonzero'], 'Equals': ['Nonzero'], 'Bytes': ['FromMontgomery'], 'One': ['SetOne'], 'IsEqual': ['Nonzero'], 'CMove': ['Selectznz'],
                   'Reduce': [], 'FromBytesWithReduce': ['ToMontgomery'], 'FromBytesNoReduce': ['ToMontgomery'], 'HashToFieldElement': ['ToMontgomery', 'Mul', 'Add'],
                   'Invert': ['Mul', 'Square'], 'expPMin3Div4': ['Mul', 'Square'], 'SqrtRatio': ['Mul', 'Square', 'Selectznz', 'Nonzero']}
@@ -162,7 +162,12 @@ def run(tier, seed, ck=None, which=None):
             low = BVLower(r)
             low.emit(o['E']['f'] + o['U0']['f'])
             f, _ = low.declare_uf(uf, [BV256], BV256)
-            g1 = (tag + '.kernel', '%s: receiver := %s(u)' % (nm, uf), '(assert (not %s))' % limbs_eq(o['E']['f'], '(%s %s)' % (f, concat_limbs(['n%d' % x for x in o['U0']['f']]))))
+            u0 = concat_limbs(['n%d' % x for x in o['U0']['f']])
+            alts = [limbs_eq(o['E']['f'], '(%s %s)' % (f, u0))]
+            # the same value through another proved kernel: -u as 0 - u, u^2 as u * u
+            f2, _ = low.declare_uf('fsub' if nm == 'Negate' else 'fmul', [BV256, BV256], BV256)
+            alts.append(limbs_eq(o['E']['f'], '(%s (_ bv0 256) %s)' % (f2, u0) if nm == 'Negate' else '(%s %s %s)' % (f2, u0, u0)))
+            g1 = (tag + '.kernel', '%s: receiver := %s(u) (or the same value through %s)' % (nm, uf, 'fsub(0, u)' if nm == 'Negate' else 'fmul(u, u)'), '(assert (not (or %s)))' % ' '.join(alts))
             ans = ck.prove_batch(low.all(), [g1], timeout=30)
             if ans[0] == 'sat' and al == 0:
                 cex(ck, r, low, '', g1[2], nm, 'u')
